@@ -1,6 +1,6 @@
 (* decoder/hover.go: HoverAtPos at body level (attribute names, block types, labels, positional
    errors).  Hover inside attribute values is delegated (not modelled here); the text of an
-   attribute-name hover depends on Constraint.FriendlyName and is not modelled (range only). *)
+   attribute-name hover is modelled in Model/AttrDetail.v (here: range only). *)
 From Coq Require Import String Ascii List ZArith Bool.
 From HV Require Import Base.Sexp Base.Str Base.Pos Model.Addr Model.DepKeys Model.Schema Model.Ast Model.Merge Model.Completion.
 Import ListNotations.
